@@ -232,6 +232,67 @@ func runC11(c *Ctx) {
 			c.check(cond && isCallResult, "R11.1", construct, c.ipos(st), "set from the handler's error on its non-nil branch",
 				"the reply's error is not set exactly when the handler's error result is non-nil")
 		}
+		// the conversion may live in a helper whose result is stored into the error member (Error: s.returnedError(…)):
+		// the helper returns the constructor's result exactly on the non-nil branch of the handler's error, nil elsewhere
+		for _, st := range errStores {
+			call, ok := st.Val.(*ssa.Call)
+			if !ok || mkErr == nil || fromHandler {
+				continue
+			}
+			h := staticCallee(call)
+			if h == nil || h == mkErr || !p.allFns[h] {
+				continue
+			}
+			var conv *ssa.Return
+			good := true
+			var src ssa.Value
+			allInstrs(h, func(in ssa.Instruction) {
+				rt, ok := in.(*ssa.Return)
+				if !ok || len(rt.Results) != 1 {
+					return
+				}
+				if mc, ok := rt.Results[0].(*ssa.Call); ok && staticCallee(mc) == mkErr {
+					conv = rt
+					a := mc.Common().Args[len(mc.Common().Args)-1]
+					if ta, ok := a.(*ssa.TypeAssert); ok {
+						a = ta.X
+					}
+					src = a
+				}
+			})
+			if conv == nil || src == nil {
+				continue
+			}
+			fromHandler = true
+			if ic, ok := src.(*ssa.Call); !ok || calleeName(ic) != "(reflect.Value).Interface" {
+				good = false
+			}
+			nonNil := false
+			for _, cf := range expandConds(impliedConds(conv.Block())) {
+				bo, ok := cf.Cond.(*ssa.BinOp)
+				if ok && ((bo.Op == token.NEQ && cf.True) || (bo.Op == token.EQL && !cf.True)) && (bo.X == src || bo.Y == src) && (isNilConst(bo.X) || isNilConst(bo.Y)) {
+					nonNil = true
+				}
+			}
+			// every other return hands back nil, and none of them lies on the non-nil side of the test
+			allInstrs(h, func(in ssa.Instruction) {
+				rt, ok := in.(*ssa.Return)
+				if !ok || rt == conv || len(rt.Results) != 1 {
+					return
+				}
+				if !isNilConst(rt.Results[0]) {
+					good = false
+				}
+				for _, cf := range expandConds(impliedConds(rt.Block())) {
+					bo, ok := cf.Cond.(*ssa.BinOp)
+					if ok && ((bo.Op == token.NEQ && cf.True) || (bo.Op == token.EQL && !cf.True)) && (bo.X == src || bo.Y == src) && (isNilConst(bo.X) || isNilConst(bo.Y)) {
+						good = false
+					}
+				}
+			})
+			c.check(good && nonNil, "R11.1", construct, c.ipos(st), "set from a helper that converts the handler's error exactly on its non-nil branch",
+				"the reply's error is not set exactly when the handler's error result is non-nil")
+		}
 		if !fromHandler {
 			c.bad("R11.1", construct, p.pos(d.Pos()), "the handler's error result is never turned into the reply's error: a failing handler is reported as success")
 		}
